@@ -67,10 +67,12 @@ Cases ==
 
 (* Budget contract on an observation e = [n, alloc, wall_ms, panic, died].   *)
 Budget(n) == AllocPerByte * n + AllocFixed
+\* the same bound in KiB (exact: both constants are multiples of 1024); TLC's integers are 32-bit
+BudgetKiB(n) == (AllocPerByte \div 1024) * n + AllocFixed \div 1024
 WithinBudget(e) ==
     /\ ~e.died                      \* the process survived (no fatal out-of-memory)
     /\ ~e.panic                     \* no panic escaped to the caller
-    /\ e.alloc_kib <= (Budget(e.n) \div 1024) + 1
+    /\ e.alloc_kib <= BudgetKiB(e.n) + 1
     /\ e.wall_ms <= TimeFixedMs + TimePerKiBMs * (e.n \div 1024)
 
 =============================================================================
